@@ -166,6 +166,9 @@ class StreamingResponse(Response, abc.ABC, Generic[_ContentType]):
             while not self._client_closed:
                 chunk = await generator.asend(None)
                 await send_http_body(send, chunk, more_body=True)
+                # neither the producer nor send() has to suspend: the task that
+                # watches for the disconnect still gets its turn
+                await asyncio.sleep(0)
         except StopAsyncIteration:
             pass
         finally:
